@@ -499,20 +499,25 @@ func (b *Buffer) cleanup() {
 				return
 			}
 
-			// do the actual cleanup logic, note that though it returns a bool indicating if it actually did anything,
-			// the current implementation applies the cooldown regardless of if it did anything
-			b.cleanupLogic()
+			// do the actual cleanup logic, note that the cooldown is applied regardless of if it did anything
+			// NOTE: if it did shift anything, the state must be checked again (e.g. the cleaner may only have
+			// trimmed part of what can be removed), and the broadcast performed by cleanupLogic cannot trigger that,
+			// since it is this goroutine (the only one reacting to it) that is running it
+			changed := b.cleanupLogic()
 
 			// no wait?
 			if d <= 0 {
-				// we don't have any need to wait, since we didn't cleanup
+				// no cooldown to apply, so just keep going until there is nothing (more) to shift
+				for changed {
+					changed = b.cleanupLogic()
+				}
 				return
 			}
 
 			// spin up a new timer (disables further work until it is cleared)
 			timer = time.NewTimer(d)
-			// clear any existing broadcast flag
-			broadcast = false
+			// reset the broadcast flag, such that the state gets re-checked after the cooldown, if it was changed
+			broadcast = changed
 
 			// and block on it via a self removing goroutine
 			go func() {
